@@ -304,4 +304,28 @@ theorem map_values_spec {W : Type} (C : Consistent hash eq) (f : V → Res W) (g
   obtain ⟨t', h1, h2, h3, h4⟩ := mapValues_spec C f g hf hI
   exact ⟨t', h1, h2, h3, fun k => by rw [look_eq_lookB C h2, look_eq_lookB C hI]; exact h4 k⟩
 
+/-! ### the hash-keyed consumer `with_count` (and `distinct`, which filters its output) -/
+
+/-- the reference `put` hands back (read by `with_count` only) is the slot of the key's class: the value returned
+is the value now stored for `k`'s class in the new table, namely `on_found(previous)` / `on_empty()` — for a found
+key that is NOT the last entry of its bucket too -/
+theorem put_returns_slot (C : Consistent hash eq) {t : Table K V} (hI : Inv C t) (k : K) (onEmpty : Unit → V)
+    (onFound : V → V) :
+    ∃ t', putRet hash eq t k onEmpty onFound = .ok (t', pureNew onEmpty onFound (look C t k)) ∧
+      put hash eq t k onEmpty onFound = .ok t' ∧ Inv C t' ∧
+      look C t' k = some (pureNew onEmpty onFound (look C t k)) := by
+  rw [look_eq_lookB C hI]
+  obtain ⟨t', h1, h2, _, h4⟩ := (tryPut_spec C hI k (fun u => .ok (onEmpty u)) (fun v => .ok (onFound v))).2
+    (pureNew onEmpty onFound (lookB C t k)) (by cases lookB C t k <;> rfl)
+  have hput : put hash eq t k onEmpty onFound = .ok t' := by rw [put_eq_tryPut]; exact h1
+  refine ⟨t', by rw [putRet_eq C, hput], hput, h2, ?_⟩
+  rw [look_eq_lookB C h2, h4, C.refl]; rfl
+
+/-- `with_count(h, e)` over a stream yields every element with the running count of its equivalence class
+(`wcSpec`), whatever collisions the hash produces and in whatever order colliding elements recur -/
+theorem with_count_spec (C : Consistent hash eq) (ks : List K) :
+    withCount hash eq empty (ks.map .ok) = (wcSpec C (fun _ => 0) ks).map .ok := by
+  have h := withCount_spec C (⟨trivial, rfl⟩ : Inv C (empty : Table K Nat)) ks
+  simpa [lookB, empty, bget] using h
+
 end XrayModel.C17
